@@ -91,7 +91,12 @@ func observeReader(b int, input []byte) readerEv {
 	}
 	dest := reflect.New(readerTargetType)
 	var err error
-	kb, pan := measure(func() { err = encoding.PopulateStructFromCBOR(xdm, append([]byte{}, input...), dest.Interface()) })
+	arg := append([]byte{}, input...)
+	if b%2 == 1 { // a short slice of a large receive buffer
+		copy(spareBuf, input)
+		arg = spareBuf[:len(input)]
+	}
+	kb, pan := measure(func() { err = encoding.PopulateStructFromCBOR(xdm, arg, dest.Interface()) })
 	ev.AllocKB = kb
 	switch {
 	case pan:
